@@ -57,11 +57,14 @@ func runC19(r *Report, rng *rand.Rand, n int) {
 		"filter_cfg * doc * (list string * list (string * string) * list string)", "mismatches_prepare")
 	chunks := NewCases("cases_C19_chunk", "From V Require Import Model.Inline Corr.Eval.", "nat * list nat", "mismatches_chunk")
 	var lastTotal int
+	var exclude []string // exclude-schemas: suppresses Go types only, the embedded document keeps the schemas
 	one := func(i int, d *gendoc.Doc, cfg gendoc.FilterCfg, probeOnly bool) {
 		lastTotal = -1
 		data := d.JSON()
-		replay := map[string]any{"spec": json.RawMessage(data), "filter": cfg}
-		code, err := generate(data, cfgOf(cfg))
+		replay := map[string]any{"spec": json.RawMessage(data), "filter": cfg, "exclude_schemas": exclude}
+		gcfg := cfgOf(cfg)
+		gcfg.OutputOptions.ExcludeSchemas = exclude
+		code, err := generate(data, gcfg)
 		if err != nil {
 			if strings.HasPrefix(err.Error(), "PANIC") {
 				r.Violate("generate_panic", err.Error(), replay)
@@ -155,8 +158,24 @@ func runC19(r *Report, rng *rand.Rand, n int) {
 		case 1:
 			cfg.SkipPrune = true
 		}
+		exclude = nil
+		if rng.Intn(2) == 0 {
+			var names []string
+			for _, c := range d.Comps {
+				if c.Kind == "schemas" {
+					names = append(names, c.Name)
+				}
+			}
+			if len(names) > 0 {
+				exclude = randSubset(rng, names, 2)
+			}
+			if len(exclude) > 0 {
+				r.Dist["exclude_schemas_given"]++
+			}
+		}
 		one(i, d, cfg, false)
 	}
+	exclude = nil
 	// boundary lengths: pad a description until the embedded text is an exact multiple of 80
 	// characters (no short last line) and until the last line is as short as base64 allows (4).
 	for _, target := range []int{0, 4, 76} {
